@@ -137,6 +137,11 @@ def check(ctx):
             e = strip_casts(dg.local(0)) if rv[0] != "Bin" else ("bin", rv[1], dg.expr(rv[2]), dg.expr(rv[3]))
             det = show(e)[:120]
             good = e[0] == "bin" and e[1] == "Eq" and ("const", 0) in (strip_casts(e[2]), strip_casts(e[3])) and body.dominates(ge[0][0], rb) if ge else False
+            if good:
+                # ... and what is compared with 0 IS the awaited answer of that call (the Ready value of polling the future it returned), not some other figure
+                other = [x for x in (e[2], e[3]) if strip_casts(x) != ("const", 0)]
+                txt = show(other[0]) if other else ""
+                good = "poll@" in txt and "as Ready" in txt and "gracefully_end_all_streams" in str(other[0])
             ok = ok and good
         if ge:
             targ = show(dg.expr(ge[0][1]["args"][1]))
@@ -227,6 +232,23 @@ def check(ctx):
             return ok
     util.guarded(ctx, C02.check, OnlyBacklog(ctx, "R06.8")); util.guarded(ctx, C09.check, OnlyBacklog(ctx, "R06.8"))
     if not getattr(ctx, "deferred_infra", None): ctx.floor("R06.8", 10)
+    # ------------------------------------------------------------------ R06.9 no future is created and thrown away unpolled
+    # (`_ = self.channel.gracefully_end_all_streams(timeout);` -- the `.await` forgotten, the `_ =` silencing must_use -- flushes nothing and ends nothing: close returns
+    #  with streams running and events buffered.  Every call in the library whose answer is a future has that answer used: awaited, returned, joined, boxed, spawned.)
+    import normalize as _nz
+    n_f = 0; n_bad = 0
+    for f in fx.fns:
+        for blk in f["blocks"]:
+            t = blk["term"]
+            if t[0] != "Call" or t[1]["dst"]["p"] or t[1].get("exp"): continue
+            l = t[1]["dst"]["l"]; ty = f["locals"][l]["ty"]
+            if not ("Future" in ty or "{coroutine" in ty or "{async" in ty or ty.startswith("impl ")): continue
+            n_f += 1
+            if not _nz._local_is_read(f, l, t[1], drops_count=False):
+                n_bad += 1
+                ctx.ob("R06.9", f"{f['key']}|{t[1].get('fname')}|future-is-polled", False, f"{f['file']}:{t[1].get('line')}",
+                       f"the future answered by `{t[1].get('fname')}` is never used (dropped unpolled): nothing it was meant to do happens")
+    ctx.ob("R06.9", "futures-created-are-used", n_bad == 0 and n_f >= 80, "", f"{n_f} future-typed call results in the library, {n_bad} dropped unpolled")
     ctx.floor("R06.1", 12); ctx.floor("R06.3", 13); ctx.floor("R06.4", 12); ctx.floor("R06.5", 1); ctx.floor("R06.6", 14)
 
 
